@@ -1407,6 +1407,9 @@ class Interp(object):
             return ABuiltin(base.name + "." + attr)
         if isinstance(base, AClass):
             v = self.class_attr(base.mod, base.node, attr, st, None)
+            if isinstance(v, AFunc) and isinstance(v.self_obj, AClass):
+                # classmethod: bound to the receiver class, not the defining one
+                v = AFunc(v.mod, v.node, v.closure, base, v.cls)
             return UNK if v is None else v
         if isinstance(base, ABuiltin):
             return ABuiltin(base.name + "." + attr)
